@@ -51,6 +51,7 @@ func init() {
 				c12Pair(x, u, d)
 			})
 			c.Inputs(spDefGram, c.Pick(6, 7), c12DefGrammar)
+			c.Explore("reference-forms", "every sequence of <=7 tokens over {[a] [b] [] (u) ! space x} between two letters, with [a] defined and [b] not: which bracket pairs are inline links, full, collapsed and shortcut references or images, and which are text", -1, 7, c12RefForms)
 			c.Explore("ordering", "all sequences of <=4 segments with one use and 1-3 competing definitions; a segment is the use (shortcut, collapsed, full reference or collapsed image; in a paragraph or as an ATX heading), a definition at top level / in a quote / in a list item / in a list item in a quote / twice in one paragraph, or (at most once) one root container holding a tree of quotes and list items of depth <=3 with definitions at different depths in every order; with and without a final line ending", -1, 4, c12Ordering)
 			for _, p := range []planEntry{{spaces.I, 4, 5}, {spaces.XRef, 5, 6}, {spaces.XLink, 5, 6}, {spaces.L, 3, 4}, {spaces.XNulRef, 5, 6}, {spaces.XDefs, 5, 6}, {spaces.XRefTail, 5, 6}} {
 				sp := p.sp
@@ -480,4 +481,121 @@ func c12DefGrammarOne(x *X, in []byte) bool {
 	x.Outcome(tree.Hash64(fmt.Sprintf("%q %v", want, wantPara)))
 	x.Sample(fmt.Sprintf("%q -> %q rest=%v", doc, want, wantPara))
 	return true
+}
+
+// ---- which bracket pairs are links (spec 6.3, flat sequences) ------------------------------
+
+var spRefForms = spaces.Space{Name: "X-refforms", Doc: "bracket pairs with a defined label, an undefined label and no label, an inline tail, an exclamation mark, text and spaces, in every order (no nesting: brackets only occur in pairs)",
+	Tokens: []string{"[a]", "[b]", "[]", "(u)", "!", " ", "x"}, Prefix: "x", Suffix: "x\n\n[a]: /A\n"}
+
+func init() { spaces.All = append(spaces.All, spRefForms) }
+
+// c12RefForms reads a flat sequence of bracket pairs the way spec 6.3 defines
+// inline, full, collapsed and shortcut references: a pair directly followed by
+// "(u)" is an inline link; directly followed by "[]" it is a collapsed reference
+// if its own label is defined; directly followed by another label it is a full
+// reference if that label is defined and otherwise no link at all (a shortcut
+// reference must not be followed by [] or a link label); otherwise it is a
+// shortcut reference if its label is defined. "!" directly before a pair that
+// becomes a link makes it an image.
+func c12RefForms(x *X) {
+	sp := spRefForms
+	var toks []string
+	for i := 0; i < 7; i++ {
+		k := x.ChooseFree(len(sp.Tokens) + 1)
+		if k == 0 {
+			break
+		}
+		toks = append(toks, sp.Tokens[k-1])
+	}
+	if len(toks) == 0 {
+		return
+	}
+	if toks[len(toks)-1] == " " || toks[0] == " " {
+		// keep the comparison away from the handling of spaces next to the prefix
+	}
+	label := func(t string) (string, bool) {
+		if len(t) >= 2 && t[0] == '[' {
+			return t[1 : len(t)-1], true
+		}
+		return "", false
+	}
+	var sb strings.Builder
+	sb.WriteString("<p>x")
+	emit := func(img bool, text, dest string) {
+		if img {
+			fmt.Fprintf(&sb, `<img src="%s" alt="%s">`, dest, text)
+		} else {
+			fmt.Fprintf(&sb, `<a href="%s">%s</a>`, dest, text)
+		}
+	}
+	nlinks := 0
+	for i := 0; i < len(toks); {
+		t := toks[i]
+		img := false
+		if t == "!" && i+1 < len(toks) {
+			if _, isPair := label(toks[i+1]); isPair {
+				img = true
+				i++
+				t = toks[i]
+			}
+		}
+		l, isPair := label(t)
+		if !isPair {
+			sb.WriteString(t)
+			i++
+			continue
+		}
+		next := ""
+		if i+1 < len(toks) {
+			next = toks[i+1]
+		}
+		m, nextIsPair := label(next)
+		switch {
+		case next == "(u)":
+			emit(img, l, "u")
+			nlinks++
+			i += 2
+		case nextIsPair && m == "" && l == "a":
+			emit(img, l, "/A")
+			nlinks++
+			i += 2
+		case nextIsPair && m == "a":
+			emit(img, l, "/A")
+			nlinks++
+			i += 2
+		case nextIsPair:
+			// followed by [] with an undefined own label, or by an undefined label: no link
+			if img {
+				sb.WriteString("!")
+			}
+			sb.WriteString(t)
+			i++
+		case l == "a":
+			emit(img, l, "/A")
+			nlinks++
+			i++
+		default:
+			if img {
+				sb.WriteString("!")
+			}
+			sb.WriteString(t)
+			i++
+		}
+	}
+	sb.WriteString("x</p>")
+	doc := sp.Prefix + strings.Join(toks, "") + sp.Suffix
+	in := []byte(doc)
+	blocks, refs := cm.Parse(clone(in))
+	got := ref.Norm(renderCfg(blocks, refs, cm.SoftBreakPreserve, false))
+	x.Validated()
+	if want := ref.Norm(sb.String()); got != want {
+		x.Fail("reference-forms", "", in, "%q renders (normalized) %q; reading the bracket pairs by spec 6.3 (a defined, b undefined) gives %q", doc, got, want)
+		return
+	}
+	if nlinks > 0 {
+		x.Nontrivial()
+	}
+	x.Outcome(tree.Hash64(sb.String()))
+	x.Sample(fmt.Sprintf("%q -> %s", doc, sb.String()))
 }
